@@ -859,6 +859,29 @@ impl<'a, E: Engine> Replayer<'a, E> {
 
         // 1. reads vs layer A
         let real_reads = E::reads(s, &d);
+        // C07, the part a read must satisfy by itself: the remove context of an element is empty iff the element is
+        // absent, and never exceeds the add context returned with it
+        if E::HAS_CTX {
+            for entry in ["contains", "get"] {
+                if let Some(items) = real_reads[entry].as_array() {
+                    for (i, it) in items.iter().enumerate() {
+                        let (add, rm) = (it["add"].as_array(), it["rm"].as_array());
+                        if let (Some(add), Some(rm)) = (add, rm) {
+                            let absent = it["val"].is_null() || it["val"] == json!(false);
+                            let rm_empty = rm.iter().all(|x| x.as_i64() == Some(0));
+                            self.rep.eval(&["C07"]);
+                            if absent != rm_empty {
+                                self.rep.add("violation", &["C07"], E::NAME, &format!("{}[{}].rm_empty_iff_absent", entry, i + 1), json!({"absent": absent, "rm": rm}), json!("rm context empty iff absent"), Value::Null, h, Value::Null);
+                            }
+                            let within = rm.len() == add.len() && rm.iter().zip(add.iter()).all(|(r, a)| r.as_i64().unwrap_or(-1) <= a.as_i64().unwrap_or(-1));
+                            if !within {
+                                self.rep.add("violation", &["C07"], E::NAME, &format!("{}[{}].rm_within_add", entry, i + 1), json!({"add": add, "rm": rm}), json!("rm context never exceeds the add context"), Value::Null, h, Value::Null);
+                            }
+                        }
+                    }
+                }
+            }
+        }
         let exp = E::exp_reads(&ln["A"], &d);
         let b = E::canon_b(&ln["B"]);
         let model_reads = E::reads_of_b(&b, &d);
